@@ -128,4 +128,58 @@ int vorbis_bitrate_addblock(vorbis_block *vb)
 #endif
   ;
 
+
+/* ---- vorbis_bitrate_init: what the manager starts from (C14) -------------- */
+#ifdef VERIF_UNIT_BRINIT
+void vorbis_bitrate_init(vorbis_info *vi, bitrate_manager_state *bm)
+  __CPROVER_requires(__CPROVER_rw_ok(vi, sizeof(*vi)) && __CPROVER_rw_ok(vi->codec_setup, sizeof(codec_setup_info)) &&
+                     __CPROVER_rw_ok(bm, sizeof(*bm)) && vi->rate >= 1 && vi->rate <= (1L << 32))
+#define ICI ((codec_setup_info *)vi->codec_setup)
+  __CPROVER_requires(ICI->blocksizes[0] >= 64 && ICI->blocksizes[0] <= ICI->blocksizes[1] && ICI->blocksizes[1] <= 8192 &&
+                     ((ICI->blocksizes[0] & (ICI->blocksizes[0] - 1)) == 0) && ((ICI->blocksizes[1] & (ICI->blocksizes[1] - 1)) == 0))
+  /* what vorbis_encode_ctl(RATEMANAGE2_SET) lets through (unit enc_ctl) */
+  __CPROVER_requires(ICI->bi.reservoir_bits <= (1L << 40) && ICI->bi.reservoir_bias >= 0. && ICI->bi.reservoir_bias <= 1.)
+  __CPROVER_assigns(*bm)
+  __CPROVER_ensures(ICI->bi.reservoir_bits <= 0 ==> (bm->managed == 0 && bm->minmax_reservoir == 0 && bm->vb == NULL))
+  /* the reservoir starts inside [0, reservoir_bits] */
+  __CPROVER_ensures(ICI->bi.reservoir_bits > 0 ==> (bm->managed == 1 && bm->minmax_reservoir >= 0 &&
+                                                    bm->minmax_reservoir <= ICI->bi.reservoir_bits &&
+                                                    bm->avg_reservoir == bm->minmax_reservoir &&
+                                                    bm->short_per_long == ICI->blocksizes[1] / ICI->blocksizes[0] &&
+                                                    bm->short_per_long >= 1 && bm->short_per_long <= 128 &&
+                                                    bm->avgfloat == 7. && bm->vb == NULL && bm->choice == 0))
+#ifdef VERIF_ENFORCE_vorbis_bitrate_init
+  REACH_ENSURES(bm->managed == 1 && bm->minmax_reservoir == ICI->bi.reservoir_bits)
+  REACH_ENSURES(bm->managed == 0)
+#endif
+  ;
+#endif
+
+/* ---- vorbis_bitrate_flushpacket: the packet handed out is the chosen blob (C14, C04, C05) */
+#ifdef VERIF_UNIT_BRFLUSH
+unsigned char *g_blobbuf;
+unsigned char *oggpack_get_buffer(oggpack_buffer *b) __CPROVER_assigns() __CPROVER_ensures(RV == b->buffer);
+#define FB(vd) (&((private_state *)(vd)->backend_state)->bms)
+int vorbis_bitrate_flushpacket(vorbis_dsp_state *vd, ogg_packet *op)
+  __CPROVER_requires(__CPROVER_rw_ok(vd, sizeof(*vd)) && __CPROVER_rw_ok(vd->backend_state, sizeof(private_state)))
+  __CPROVER_requires(op == NULL || __CPROVER_rw_ok(op, sizeof(*op)))
+  __CPROVER_requires(FB(vd)->vb == NULL || (__CPROVER_rw_ok(FB(vd)->vb, sizeof(vorbis_block)) && FB(vd)->vb->vd == vd &&
+                     __CPROVER_rw_ok(FB(vd)->vb->internal, sizeof(vorbis_block_internal)) && ALL_BLOBS_FRESH(FB(vd)->vb)))
+  /* vorbis_bitrate_addblock's postcondition (1) */
+  __CPROVER_requires(FB(vd)->choice >= 0 && FB(vd)->choice < PACKETBLOBS)
+  __CPROVER_assigns(FB(vd)->vb)
+  __CPROVER_assigns(op != NULL: *op)
+#define FCH(vd) (FB(vd)->managed ? FB(vd)->choice : PACKETBLOBS / 2)
+  __CPROVER_ensures(RV == (OLD(FB(vd)->vb) != NULL ? 1 : 0) && FB(vd)->vb == NULL)
+  __CPROVER_ensures((RV == 1 && op != NULL) ==>
+     (op->packet == BLOB(OLD(FB(vd)->vb), FCH(vd))->buffer && op->bytes == OPB_BYTES(BLOB(OLD(FB(vd)->vb), FCH(vd))) &&
+      op->b_o_s == 0 && op->e_o_s == OLD(FB(vd)->vb)->eofflag && op->granulepos == OLD(FB(vd)->vb)->granulepos &&
+      op->packetno == OLD(FB(vd)->vb)->sequence))
+#ifdef VERIF_ENFORCE_vorbis_bitrate_flushpacket
+  REACH_ENSURES(RV == 1 && op != NULL && FB(vd)->managed && FB(vd)->choice == 14)
+  REACH_ENSURES(RV == 0)
+#endif
+  ;
+#endif
+
 #endif
